@@ -1,8 +1,9 @@
 """C12 — identifier accessors return the written name, qualifier and alias."""
+import re
 import gen, streams, grammar
 from common import *
 import sqlparse
-from sqlparse import sql
+from sqlparse import sql, tokens as T
 
 RULE = ('object references [qual.]name [[AS] alias] x spelling (plain, "double-quoted" incl. keywords/blanks/escapes, `backtick`) x whitespace choice x syntactic context '
         '(select list position, FROM list, JOIN, UPDATE target, INSERT target, subquery) x neighbouring items; quoted names containing every whitespace / punctuation character, comment openers and separators at the start, middle and end; non-trivial = distinct (reference text, context)')
@@ -56,6 +57,10 @@ def contexts(rng, ref, has_alias):
     yield 'cte-body', 'WITH cq AS (SELECT' + w() + ref + w() + 'FROM tt)' + w() + 'SELECT 1 FROM cq', sql.Identifier
     yield 'join-subquery-as', 'SELECT a FROM tt JOIN (SELECT' + w() + ref + w() + 'FROM uu)' + w() + 'AS j ON k1 = k2', sql.Identifier
     yield 'select-list-subquery', 'SELECT (SELECT' + w() + ref + w() + 'FROM tt)' + w() + 'AS s1, b FROM zz', sql.Identifier
+    # subqueries that are typecast: group_typecasts wraps the parenthesis into an Identifier BEFORE the alias passes run
+    yield 'subquery-typecast', 'SELECT q FROM (SELECT' + w() + ref + w() + 'FROM tt)::int', sql.Identifier
+    yield 'select-list-subquery-typecast', 'SELECT (SELECT' + w() + ref + w() + 'FROM tt)::text AS s1, b FROM zz', sql.Identifier
+    yield 'subquery-typecast-from', 'SELECT q FROM (SELECT a FROM' + w() + ref + ')::int sub', sql.Identifier
 
 
 def find(stmt, cls, reftext):
@@ -306,7 +311,38 @@ def domain_skeleton(ctx):
                 break
 
 
+def as_alias_inside_typecast_parenthesis(text, ref):
+    """mechanism of KF-C12-1: the written reference has an AS alias and lies inside a parenthesis that is directly followed by `::` — group_typecasts
+    (an earlier pass) wraps that parenthesis into an Identifier, and group_as (class Identifier) never descends into Identifier instances"""
+    if not re.search(r'\s+as\s+', ref, re.I):
+        return False
+    try:
+        stmt = sqlparse.parse(text)[0]
+    except Exception:
+        return False
+    for n in _walk(stmt):
+        if isinstance(n, sql.Parenthesis) and ref in str(n) and isinstance(n.parent, sql.Identifier):
+            i = n.parent.token_index(n)
+            nx = n.parent.tokens[i + 1] if i + 1 < len(n.parent.tokens) else None
+            if nx is not None and nx.match(T.Punctuation, '::'):
+                return True
+    return False
+
+
+def classify(f, kf):
+    ex = f.get('extra') or {}
+    ref = ex.get('ref')
+    if 'no Identifier node covers' in f.get('what', '') and not ref:
+        ref = f.get('required') if isinstance(f.get('required'), str) else None
+    for k in kf:
+        if k['id'] == 'KF-C12-1' and isinstance(f.get('input'), str) and isinstance(ref, str) and as_alias_inside_typecast_parenthesis(f['input'], ref):
+            return k['id']
+    return None
+
+
 def replay_known(ctx, k):
+    if k.get('id') == 'KF-C12-1':
+        return any(not _has_ref(w['input'], w.get('qualifier'), w['name'], w.get('alias')) for w in k.get('witnesses', []))
     """witnesses carry input / qualifier / name / alias (KF-C12-F1, fixed in 783c51f: a regression input — true iff it fails again)"""
     for w in k.get('witnesses', []):
         if 'name' in w and not _has_ref(w['input'], w.get('qualifier'), w['name'], w.get('alias')):
